@@ -1,1 +1,257 @@
-//! C02: not implemented yet.
+//! C02 — Frequency corrections stay within the configured maximum.
+//!
+//! Same explicit-state engine as C01 (`super::c01`: real `KalmanClockController`, real
+//! source controllers, steering fed back, recording mock clock, BFS with exact-bit keys),
+//! own alphabet / configurations / oracle.
+//!
+//! Oracle (from the statement):
+//!  * every `set_frequency(f)` recorded by the mock clock: `|f| <= maximum_frequency_steer`
+//!    (a NaN fails the comparison) — whatever the kernel frequency at start-up was;
+//!  * after every controller update the extra frequency of the running slew (probe:
+//!    `desired_freq`) satisfies `|desired_freq| <= slew_maximum_frequency_offset`;
+//!  * black-box cross-check of the same bound: when the slew-end timer fires, the relative
+//!    frequency change handed to the clock, `(1+f_new)/(1+f_old)-1`, is the extra frequency
+//!    being removed (or less, if the clamp engaged) and must not exceed the slew maximum.
+use std::hash::Hash;
+
+use super::c01::{
+    self, explore, init_burst, prefix_usable, replay_with, run_specs, Call, Cfg, End, Ev, Report, Spec,
+    Transition, A, B, G, MS, S,
+};
+use super::common::{self, Ctx};
+
+#[derive(Default, Hash, Clone, Debug)]
+struct M02 {
+    /// bits of the last frequency handed to the clock
+    last: Option<u64>,
+}
+
+fn judge02(cfg: &Cfg, m: &mut M02, tr: &Transition, mut rep: Option<&mut Report>) {
+    for u in &tr.upds {
+        for c in &u.calls {
+            let Call::SetFreq(f) = c else { continue };
+            let f = *f;
+            if let Some(r) = rep.as_deref_mut() {
+                r.inc("set_frequency_calls");
+                if !(f.abs() <= cfg.max_steer) {
+                    r.viol(
+                        "C02:frequency-outside-maximum",
+                        format!("set_frequency({f:e}) with maximum_frequency_steer {:e} (kernel frequency at start {:e})", cfg.max_steer, cfg.init_freq),
+                    );
+                } else if f.abs() == cfg.max_steer {
+                    r.inc("set_frequency_at_the_limit");
+                }
+                if f != 0.0 {
+                    r.note = Some(format!("set_frequency({f:e})"));
+                }
+                if u.kind == 1 {
+                    if let Some(prev) = m.last.map(f64::from_bits) {
+                        let rel = (1.0 + f) / (1.0 + prev) - 1.0;
+                        if prev.abs() <= cfg.max_steer && !(rel.abs() <= cfg.slew_max * (1.0 + 1e-9) + 1e-15) {
+                            r.viol(
+                                "C02:slew-end-exceeds-slew-maximum",
+                                format!("slew end changed the frequency by {rel:e} (from {prev:e} to {f:e}), slew maximum {:e}", cfg.slew_max),
+                            );
+                        }
+                        if rel != 0.0 {
+                            r.inc("slew_ends_removing_extra_frequency");
+                        }
+                    }
+                }
+            }
+            m.last = Some(f.to_bits());
+        }
+        match &u.end {
+            End::Ok => {
+                let desired = u.view.1;
+                if let Some(r) = rep.as_deref_mut() {
+                    if !(desired.abs() <= cfg.slew_max) {
+                        r.viol(
+                            "C02:slew-frequency-outside-maximum",
+                            format!("running slew uses extra frequency {desired:e}, slew_maximum_frequency_offset {:e}", cfg.slew_max),
+                        );
+                    }
+                    if u.next_update.is_some() {
+                        r.inc("slews_started");
+                        if desired.abs() == cfg.slew_max {
+                            r.inc("slews_at_the_slew_maximum");
+                        }
+                        r.note = Some(format!("slew started, extra frequency {desired:e} for {:?}", u.next_update.unwrap()));
+                    }
+                    if u.kind == 0 {
+                        r.inc(if u.used.is_some() { "updates_with_consensus" } else { "updates_without_consensus" });
+                    }
+                    if u.calls.iter().any(|c| matches!(c, Call::Step(_))) {
+                        r.inc("steps");
+                    }
+                }
+            }
+            End::Exit => {
+                if let Some(r) = rep.as_deref_mut() {
+                    r.inc("exits");
+                }
+            }
+            End::Panic(site, msg) => {
+                if let Some(r) = rep.as_deref_mut() {
+                    r.inc("other_panics");
+                    r.viol("C02:panic", format!("{site}: {msg}"));
+                }
+            }
+        }
+    }
+}
+
+fn starts02(cfg: &Cfg) -> Vec<(String, Vec<Ev>)> {
+    let mut v = Vec::new();
+    v.push(("fresh".to_string(), prefix_usable()));
+    let mut p = prefix_usable();
+    p.push(init_burst(A));
+    v.push(("A-stable".to_string(), p));
+    let mut p = prefix_usable();
+    p.push(init_burst(A));
+    p.push(init_burst(B));
+    v.push(("AB-stable".to_string(), p));
+    let mut p = prefix_usable();
+    if cfg.step_threshold > 1.0 {
+        p.push(Ev::meas(A, 700 * S, MS, S));
+    } else {
+        p.push(init_burst(A));
+        p.push(Ev::meas(A, 5 * MS, MS, S));
+    }
+    v.push(("mid-slew".to_string(), p));
+    v
+}
+
+fn alphabet02_full() -> Vec<Ev> {
+    let mut v = Vec::new();
+    let offs = [0, 2 * MS, -5 * MS, 9 * MS, -9 * MS, S / 5, -S / 5, 700 * S, -700 * S, 90_000 * S, -(1i64 << 62)];
+    for off in offs {
+        for dt in [S, 64 * S, 1024 * S] {
+            v.push(Ev::meas(A, off, MS, dt));
+        }
+    }
+    for off in [0, 9 * MS, -700 * S] {
+        v.push(Ev::meas(B, off, MS, 64 * S));
+    }
+    for off in [0, -9 * MS, 700 * S, i64::MAX] {
+        v.push(Ev::meas(G, off, 0, S));
+    }
+    v.push(init_burst(B));
+    v.push(init_burst(G));
+    v.push(Ev::burst(A, 20 * MS, MS, 16 * S, 8, MS / 10, MS / 50));
+    v.push(Ev::Tick);
+    v.push(Ev::Usable { src: A, on: false });
+    v.push(Ev::Remove { src: A });
+    v
+}
+
+fn alphabet02_core() -> Vec<Ev> {
+    vec![
+        Ev::meas(A, 0, MS, S),
+        Ev::meas(A, 5 * MS, MS, 64 * S),
+        Ev::meas(A, -9 * MS, MS, S),
+        Ev::meas(A, 700 * S, MS, S),
+        Ev::meas(A, -S / 5, MS, 1024 * S),
+        Ev::meas(B, 700 * S, MS, 64 * S),
+        Ev::meas(G, 9 * MS, 0, S),
+        Ev::Tick,
+    ]
+}
+
+fn configs02(quick: bool) -> Vec<Cfg> {
+    let mut v = Vec::new();
+    for init_freq in [0.0, 400e-6, -600e-6, 0.5] {
+        for max_steer in [495e-6, 1e-6] {
+            for slew_max in [200e-6, 1e-3] {
+                for slew_min_dur in [8.0, 1e-3] {
+                    for step_threshold in [0.010, 1800.0] {
+                        if quick && slew_min_dur == 1e-3 && step_threshold == 0.010 {
+                            // quick tier: 3 of the 4 (slew_minimum_duration, step_threshold) pairs
+                            continue;
+                        }
+                        let i = v.len();
+                        v.push(Cfg {
+                            init_freq,
+                            max_steer,
+                            slew_max,
+                            slew_min_dur,
+                            step_threshold,
+                            order: (i % 2) as u8,
+                            min_agree: 1,
+                            ..Cfg::default()
+                        });
+                    }
+                }
+            }
+        }
+    }
+    if !quick {
+        // the shipped panic thresholds and a two-source quorum on top of the grid
+        let n = v.len();
+        for i in 0..n {
+            if i % 4 == 0 {
+                let mut c = v[i].clone();
+                c.startup = (None, Some(1800 * S));
+                c.single = (Some(1000 * S), Some(1000 * S));
+                c.min_agree = 2;
+                v.push(c);
+            }
+        }
+    }
+    v
+}
+
+fn replay(ctx: &Ctx, trace: &str) -> String {
+    replay_with::<M02, _>(ctx, trace, &judge02)
+}
+
+#[test]
+fn check() {
+    let ctx = Ctx::new("C02");
+    if let Some(t) = common::replay_trace() {
+        let a = replay(&ctx, &t);
+        let b = replay(&ctx, &t);
+        common::report_replay("C02", &a, &b, ctx.violation_count() > 0);
+        return;
+    }
+    let quick = ctx.quick();
+    let full = alphabet02_full();
+    let core = alphabet02_core();
+    let (d_full, d_core) = if quick { (2, 4) } else { (3, 5) };
+    ctx.rule(&format!(
+        "BFS over event histories of the real KalmanClockController + real source controllers for every algorithm configuration in \
+         kernel start frequency {{0, 400 ppm, -600 ppm, 0.5}} x maximum_frequency_steer {{495 ppm, 1 ppm}} x slew_maximum_frequency_offset {{200 ppm, 1000 ppm}} \
+         x slew_minimum_duration {{8 s, 1 ms}} x step_threshold {{10 ms, 1800 s}} (quick tier leaves out the pair 1 ms/10 ms; HashMap order alternating; thorough adds shipped panic thresholds + quorum 2), \
+         from 4 start states (fresh / A in Kalman stage / A and B in Kalman stage / slew in flight): all histories of <= {d_full} events over the {}-symbol \
+         full alphabet (A offsets 0,2,-5,+-9 ms,+-0.2 s,+-700 s,90000 s,-2^30 s at dt 1|64|1024 s; B, G measurements; initialisation bursts; slew-end timer; \
+         usable off; remove) and <= {d_core} events over the {}-symbol core alphabet. States deduplicated on exact bit patterns. \
+         Distinct & non-trivial = distinct end state reached by a transition that invoked the controller.",
+        full.len(),
+        core.len()
+    ));
+    ctx.assume("the mock clock applies a frequency exactly as requested and reports the frequency given as 'kernel frequency at start' until the daemon first sets one");
+    ctx.assume("the extra frequency of a slew is read from the controller's private desired_freq through a read-only probe; the slew-end cross-check uses only set_frequency arguments");
+    ctx.note("alphabet_full", &full.iter().map(|e| e.encode()).collect::<Vec<_>>().join(" "));
+    ctx.note("alphabet_core", &core.iter().map(|e| e.encode()).collect::<Vec<_>>().join(" "));
+    let cfgs = configs02(quick);
+    ctx.set("configurations", cfgs.len() as u64);
+    let mut specs = Vec::new();
+    for cfg in &cfgs {
+        for (name, prefix) in starts02(cfg) {
+            for (alpha, depth, tag) in [(&full, d_full, "full"), (&core, d_core, "core")] {
+                specs.push(Spec {
+                    rank: 0,
+                    name: format!("{name}/{tag}"),
+                    cfg: cfg.clone(),
+                    prefix: prefix.clone(),
+                    alphabet: alpha.clone(),
+                    depth,
+                });
+            }
+        }
+    }
+    ctx.set("explorations", specs.len() as u64);
+    let complete = run_specs::<M02, _>(&ctx, &specs, &judge02);
+    ctx.exhaustive(complete);
+    ctx.finish();
+}
